@@ -32,6 +32,10 @@ GenChoiceInit == {Empty, [l \in {"c.z", "pl.s"} |-> "s:b"]}
 \* lifecycle family: small data universe, all Set outcomes, both timeout classes
 GenLifeLeaf == {"pl.a", "pl.ab", "i1.name", "i1.val"}
 GenLifeInit == {Empty, [l \in {"pl.s"} |-> "s:b"]}
+GenCrossLeaf == Fam_cross
+GenCrossInit == {Empty, [l \in {"s.host"} |-> "s:abc"], [l \in {"s.hostname", "pl.n"} |-> IF l = "pl.n" THEN "u:1" ELSE "s:a"]}
+GenPresLeaf == Fam_pres
+GenPresInit == {Empty, [l \in {"pl.s"} |-> "s:b"]}
 GenValidLeaf == Fam_valid
 GenValidInit == {Empty, [l \in {"s.host", "pl.n"} |-> IF l = "s.host" THEN "s:abc" ELSE "u:1"],
                  [l \in {"i2.name", "s.hostname"} |-> IF l = "i2.name" THEN "key" ELSE "s:a"]}
